@@ -183,7 +183,7 @@ pub fn generate(check: &str, tier: &str, seed: u64, run: u64) -> Case {
     Case { program, config }
 }
 
-fn gen_litmus_any(rng: &mut Rng, thorough: bool) -> Program {
+pub fn gen_litmus_any(rng: &mut Rng, thorough: bool) -> Program {
     if rng.chance(2, 5) {
         gen_litmus_template(rng)
     } else {
